@@ -58,3 +58,11 @@ pub fn from_utf8_model(v: &[u8]) -> Result<&str, Utf8Error> {
 
 /// zeroize's inline-asm optimisation barrier has no semantic effect.
 pub fn barrier_noop<T: ?Sized>(_val: &T) {}
+
+/// ring's constant-time comparison ends in a C function Kani cannot see; its contract is byte equality.
+pub fn ct_eq_stub(a: &[u8], b: &[u8]) -> Result<(), ring::error::Unspecified> {
+    if a.len() != b.len() { return Err(ring::error::Unspecified); }
+    let mut i = 0; let mut same = true;
+    while i < a.len() { if a[i] != b[i] { same = false; } i += 1; }
+    if same { Ok(()) } else { Err(ring::error::Unspecified) }
+}
